@@ -162,77 +162,74 @@ example : FixedIn 0 6 [0, 2, 5] := ⟨by simp, by simp⟩
 
 /-! ## cast to the same scalar type -/
 
-/-- the property's claim about `cast`: the result is the same value (hence behaves identically) -/
+/-- the property's claim about `cast`: the result is the same value (hence an object that
+    behaves identically under every operation of the model) -/
 def cast_same_scalar_behaves_identically_statement {M : Type} (A : Man α M) (Valid : M → Prop) : Prop :=
   ∀ s, Valid s → ∀ c, A.cast s = .ok c → c = s
 
-theorem cast_identity_lie (G : LieModel α) :
-    cast_same_scalar_behaves_identically_statement (ofLie G) (fun _ => True) := by
+/-- `CastOk` (the cast succeeds and returns the same value) gives the statement -/
+theorem cast_statement_of_castOk {M : Type} {A : Man α M} {Valid : M → Prop} (h : CastOk A Valid) :
+    cast_same_scalar_behaves_identically_statement A Valid := by
+  intro s hs c hc
+  rw [h s hs] at hc
+  exact (Except.ok.inj hc).symm
+
+/-- Lie groups, Eigen vectors and scalars -/
+theorem cast_same_scalar_behaves_identically_base (G : LieModel α) :
+    CastOk (ofLie G) (fun _ => True) ∧ CastOk (scalar : Man α α) (fun _ => True) ∧
+      CastOk (vecX : Man α (List α)) (fun _ => True) :=
+  ⟨castOk_lie G, castOk_scalar, castOk_vecX⟩
+
+/-- std::vector: element-wise -/
+theorem cast_same_scalar_behaves_identically_vector {M : Type} {A : Man α M} {Valid : M → Prop}
+    (hA : CastOk A Valid) (u : Nat → α) : CastOk (vector A u) (fun ms => ∀ m ∈ ms, Valid m) :=
+  castOk_vector A hA u
+
+/-- std::variant: the held alternative -/
+theorem cast_same_scalar_behaves_identically_variant {ι : Type} [DecidableEq ι] {Ms : ι → Type}
+    {A : ∀ i, Man α (Ms i)} {Valid : ∀ i, Ms i → Prop} (hA : ∀ i, CastOk (A i) (Valid i)) (first : ι) :
+    CastOk (variant A first) (fun v => Valid v.1 v.2) := castOk_variant hA first
+
+/-- **SubManifold**: the cast to the same scalar type is the identity on `(m0, m, fixed)` -/
+theorem cast_same_scalar_behaves_identically_submanifold {M : Type} {A : Man α M} {Valid : M → Prop}
+    (hA : CastOk A Valid) : CastOk (sub A) (SubValid A Valid) := castOk_sub A hA
+
+/-- hence the full statement for SubManifold (and, by the lifts above, for every nesting of
+    vector / variant / SubManifold over groups, vectors and scalars) -/
+theorem cast_same_scalar_behaves_identically {M : Type} {A : Man α M} {Valid : M → Prop}
+    (hA : CastOk A Valid) :
+    cast_same_scalar_behaves_identically_statement (sub A) (SubValid A Valid) :=
+  cast_statement_of_castOk (castOk_sub A hA)
+
+/-- AnyManifold does not support casting (it throws): the statement holds vacuously there -/
+theorem cast_same_scalar_any_vacuous {ι : Type} [DecidableEq ι] {Ms : ι → Type}
+    (A : ∀ i, Man α (Ms i)) (Valid : (Σ i, Ms i) → Prop) :
+    cast_same_scalar_behaves_identically_statement (any A) Valid := by
   intro s _ c h
-  simp only [ofLie, Except.ok.injEq] at h
-  exact h.symm
+  simp [any] at h
 
-theorem cast_identity_vector {M : Type} (A : Man α M) (Valid : M → Prop)
-    (hA : cast_same_scalar_behaves_identically_statement A Valid)
-    (hok : ∀ m, Valid m → ∃ c, A.cast m = .ok c) (u : Nat → α) :
-    cast_same_scalar_behaves_identically_statement (vector A u) (fun ms => ∀ m ∈ ms, Valid m) := by
-  intro ms
-  induction ms with
-  | nil =>
-    intro _ c h
-    simp only [vector, vectorCast, pure, Except.pure, Except.ok.injEq] at h
-    exact h.symm
-  | cons m ms ih =>
-    intro hv c h
-    obtain ⟨cm, hcm⟩ := hok m (hv m (by simp))
-    have hm := hA m (hv m (by simp)) cm hcm
-    change vectorCast A (m :: ms) = _ at h
-    simp only [vectorCast, hcm, bind, Except.bind] at h
-    cases hr : vectorCast A ms with
-    | error e => simp [hr] at h
-    | ok cs =>
-      have := ih (fun x hx => hv x (by simp [hx])) cs hr
-      simp only [hr, pure, Except.pure, Except.ok.injEq] at h
-      rw [← h, hm, this]
+/-- sensitivity of the statement: with the argument order of the tree before commit 9680871
+    (`(cast m, cast m0, fixed)` into the `(m0, m, fixed)` constructor) origin and value come back
+    exchanged, and the cast is not the identity (witness: origin 0, value 1) -/
+theorem swapped_cast_is_not_identity :
+    (∀ {M : Type} (A : Man α M) (s : SubMan M), (∀ m : M, A.cast m = .ok m) →
+      ∃ c, subCastSwapped A s = .ok c ∧ c.m0 = s.m ∧ c.m = s.m0) ∧
+    subCastSwapped (scalar : Man ℝ ℝ) ⟨0, 1, []⟩ ≠ .ok ⟨0, 1, []⟩ := by
+  refine ⟨?_, ?_⟩
+  · intro M A s hid
+    obtain ⟨c, hc, h0, h1, _⟩ := subCastSwapped_swaps A s s.m s.m0 (hid _) (hid _)
+    exact ⟨c, hc, h0, h1⟩
+  · intro h
+    simp [subCastSwapped, scalar, SubMan.ctor, isort, bind, Except.bind, pure, Except.pure] at h
 
-/-- **the defect**: the model (like `traits::man<SubManifold<M>>::cast` in the code) swaps
-    origin and value -/
-theorem submanifold_cast_swaps {M : Type} (A : Man α M) (s : SubMan M)
-    (hid : ∀ m : M, A.cast m = .ok m) :
-    ∃ c, (sub A).cast s = .ok c ∧ c.m0 = s.m ∧ c.m = s.m0 := by
-  obtain ⟨c, hc, h0, h1, _⟩ := subCast_swaps A s s.m s.m0 (hid _) (hid _)
-  exact ⟨c, hc, h0, h1⟩
-
-/-- a witness where they differ: `SubManifold<double>` with origin 0 and value 1.  The full
-    `cast_same_scalar_behaves_identically_statement` is therefore FALSE for SubManifold. -/
-theorem submanifold_cast_counterexample :
-    ¬ cast_same_scalar_behaves_identically_statement (sub (scalar : Man ℝ ℝ))
-      (SubValid (scalar : Man ℝ ℝ) (fun _ => True)) := by
-  intro h
-  have hv : SubValid (scalar : Man ℝ ℝ) (fun _ => True) ⟨0, 1, []⟩ :=
+-- non-vacuity: SubManifold<std::vector<Eigen::Vector3d>> over ℝ, and a concrete value
+example : CastOk (sub (vector (ofLie (Tn.model 3 : LieModel ℝ))))
+    (SubValid (vector (ofLie (Tn.model 3 : LieModel ℝ))) (fun ms => ∀ m ∈ ms, True)) :=
+  cast_same_scalar_behaves_identically_submanifold
+    (cast_same_scalar_behaves_identically_vector (castOk_lie _) _)
+example : (sub (scalar : Man ℝ ℝ)).cast ⟨0, 1, []⟩ = .ok ⟨0, 1, []⟩ :=
+  cast_same_scalar_behaves_identically_submanifold castOk_scalar _
     ⟨trivial, trivial, rfl, ⟨List.Pairwise.nil, by simp⟩⟩
-  have := h ⟨0, 1, []⟩ hv ⟨1, 0, []⟩ (by
-    change subCast _ _ = _
-    simp [subCast, scalar, SubMan.ctor, isort, bind, Except.bind, pure, Except.pure])
-  have h0 := congrArg SubMan.m0 this
-  simp at h0
-
-/-- what does hold for the cast as coded: the fixed dims and the degrees of freedom survive, and
-    casting twice is the identity -/
-theorem submanifold_cast_partial {M : Type} (A : Man α M) (s : SubMan M)
-    (hid : ∀ m : M, A.cast m = .ok m) (hs : s.fixed.Pairwise (· < ·)) :
-    ∃ c, (sub A).cast s = .ok c ∧ c.fixed = s.fixed ∧ (sub A).cast c = .ok s := by
-  refine ⟨⟨s.m, s.m0, s.fixed⟩, ?_, rfl, ?_⟩
-  · change subCast A s = _
-    simp [subCast, hid, SubMan.ctor, isort_of_sorted _ hs, bind, Except.bind, pure, Except.pure]
-  · change subCast A _ = _
-    simp [subCast, hid, SubMan.ctor, isort_of_sorted _ hs, bind, Except.bind, pure, Except.pure]
-
-/-- the intended argument order (the one-line patch) makes the statement true -/
-theorem submanifold_cast_intended_identity {M : Type} (A : Man α M) (s : SubMan M)
-    (hid : ∀ m : M, A.cast m = .ok m) (hs : s.fixed.Pairwise (· < ·)) :
-    subCastIntended A s = .ok s := by
-  simp [subCastIntended, hid, SubMan.ctor, isort_of_sorted _ hs, bind, Except.bind, pure, Except.pure]
 
 /-! ## `std::variant` and `AnyManifold` -/
 
